@@ -320,8 +320,8 @@ def run_all(rep, ctx, cases):
 
 
 def check(rep):
-    import c17
-    ctx = vlib.prepare(rep, harnesses={'pure': vlib.pure_harness('C18'), 'srvmain': c17.SRVMAIN}, sanitize=(rep.tier == 'thorough'))
+    import mainlib
+    ctx = vlib.prepare(rep, harnesses={'pure': vlib.pure_harness('C18'), 'srvmain': mainlib.SRVMAIN}, sanitize=(rep.tier == 'thorough'))
     cases, stats = gen_cases(rep.seed, rep.tier)
     rep.cov['rule'] = ('corpus first; init_users: every netmask 8..30 x 8 base addresses x boundary host positions (0..20, around '
                        'usercount, first/last host, network and broadcast position, 255/256/257, 65535..65537) + random positions, '
@@ -350,7 +350,7 @@ def startup_stage(rep, ctx):
     sessions; the same verdict and count as the model (Users.netmask_accepted, Users.init_users)"""
     if 'srvmain' not in ctx.exe:
         return
-    import c17
+    import mainlib
     rng = vlib.rng_for(rep.seed, 'c18-main')
     args = []
     for base in ('10.0.0.1', '192.168.99.77', '172.16.0.200', '10.255.255.254'):
@@ -358,7 +358,7 @@ def startup_stage(rep, ctx):
             args.append((base, '%s/%d' % (base, nb), nb))
     args += [('10.0.0.1', '10.0.0.1', 27), ('10.0.0.1', '10.0.0.1/', 0), ('10.0.0.1', '10.0.0.1/x', 0), ('10.0.0.1', '10.0.0.1/27x', 27),
              ('10.0.0.1', '10.0.0.1/ 9', 9), ('10.0.0.1', '10.0.0.1/030', 30), ('10.0.0.1', '10.0.0.1/+8', 8)]
-    lines = [c17.aline([b'-f', b'-P', b'pw', b'--', a.encode(), b't.example.com']) for _, a, _ in args]
+    lines = [mainlib.aline([b'-f', b'-P', b'pw', b'--', a.encode(), b't.example.com']) for _, a, _ in args]
     rc, out, err = vlib.parallel_run_cases(ctx.exe['srvmain'], lines, ctx.work, 'srvmain')
     if rc != 0:
         ctx.broken.append(('impl-crash', 'main() harness exited with %d: %s' % (rc, err[-300:])))
